@@ -22,7 +22,7 @@ Theorem C15_layout_2d :
   forall h w ya b y x,
     norm_layout [h; w] (h, w) ya = Ok (L2d, (1, h, w)) /\
     src_index L2d (1, h, w) b y x = ravel [h; w] [y; x].
-Proof. intros; split; [apply norm_layout_2d_ok | apply src_index_2d]. Qed.
+Proof. exact layout_2d_thm. Qed.
 Print Assumptions C15_layout_2d.
 
 (** band-last (Y, X, B): input sample (y, x, b) becomes band b, row y, column x *)
@@ -31,10 +31,7 @@ Theorem C15_layout_band_last :
     norm_layout [h; w; nb] (h, w) None = Ok (LBandLast, (nb, h, w)) /\
     norm_layout [h; w; nb] (h, w) (Some 0) = Ok (LBandLast, (nb, h, w)) /\
     src_index LBandLast (nb, h, w) b y x = ravel [h; w; nb] [y; x; b].
-Proof.
-  intros; split; [apply norm_layout_band_last_guess|]. split; [apply norm_layout_band_last_known|].
-  apply src_index_band_last.
-Qed.
+Proof. exact layout_band_last_thm. Qed.
 Print Assumptions C15_layout_band_last.
 
 (** band-first (B, Y, X): kept as is.  With the shape-based guess this needs
@@ -46,10 +43,7 @@ Theorem C15_layout_band_first :
     ((nb, h) <> (h, w) -> norm_layout [nb; h; w] (h, w) None = Ok (LBandFirst, (nb, h, w))) /\
     norm_layout [nb; h; w] (h, w) (Some 1) = Ok (LBandFirst, (nb, h, w)) /\
     src_index LBandFirst (nb, h, w) b y x = ravel [nb; h; w] [b; y; x].
-Proof.
-  intros; split; [apply norm_layout_band_first_guess|]. split; [apply norm_layout_band_first_known|].
-  apply src_index_band_first.
-Qed.
+Proof. exact layout_band_first_thm. Qed.
 Print Assumptions C15_layout_band_first.
 
 (** the shape-only guess cannot tell a cube-shaped band-first array from a
@@ -101,10 +95,7 @@ Theorem C15_layout_map_onto :
     (forall t, 0 <= t < nb * h * w ->
        exists b y x, sample_in_range (nb, h, w) b y x /\ src_index l (nb, h, w) b y x = t) /\
     Permutation (readback_indices l (nb, h, w)) (zrange (nb * h * w)).
-Proof.
-  intros l nb h w Hl Nb Nh Nw. split; [intros; apply src_index_bound; auto|].
-  split; [intros; apply src_index_surj; auto | apply readback_is_permutation; auto].
-Qed.
+Proof. exact layout_map_onto_thm. Qed.
 Print Assumptions C15_layout_map_onto.
 
 Theorem C15_accepted_layouts_are_well_formed :
@@ -137,11 +128,7 @@ Theorem C15_overview_levels :
     (forall l, req = Some l -> overview_levels req w h = l) /\
     (req = None -> Z.min w h < 512 -> overview_levels req w h = []) /\
     (req = None -> 512 <= w -> 512 <= h -> overview_levels req w h = [2; 4; 8; 16; 32]).
-Proof.
-  intros req w h. split; [intros l ->; reflexivity|]. split.
-  - intros -> H. apply overview_levels_default_small; auto.
-  - intros -> Hw Hh. apply overview_levels_default_large; auto.
-Qed.
+Proof. exact overview_levels_thm. Qed.
 Print Assumptions C15_overview_levels.
 
 Theorem C15_nodata_precedence :
@@ -212,7 +199,7 @@ Section WithGDAL.
       norm_layout shape g ya = Ok (l, dims) -> sample_in_range dims b y x ->
       gdal_decode (gdal_encode dims (fun b y x => pix (src_index l dims b y x))) b y x =
         pix (src_index l dims b y x).
-  Proof. intros shape g ya l dims b y x _ R. apply gdal_roundtrip. exact R. Qed.
+  Proof. exact (readback_generic gdal_encode gdal_decode gdal_roundtrip pix). Qed.
 End WithGDAL.
 Print Assumptions C15_readback_is_input.
 
